@@ -1,0 +1,146 @@
+//go:build verif
+
+package mem
+
+// Contracts for govc, the contract verifier under /verif (see /verif/DESIGN.md).
+// This file contains comments only; it adds no code under any build tag.
+
+//@ syncmap store.records key string val keyvalue.FileRecord
+
+// A transaction holds the store lock from Transaction() until its single release.
+//@ spec txnInv(t *transaction) := t != nil && t.store != nil && t.ctx != nil && cancels(t.abort, t.ctx) && t.abort != nil &&
+//@                               t.op >= 0 && len(t.results) == t.op && forall(i, 0, len(t.results), t.results[i].Op == i) &&
+//@                               (t.released || held(t.store.mu))
+
+//@ func (s *store) Transaction(options keyvalue.TransactionOptions) (txn keyvalue.Transaction, err error)
+//@   props C18
+//@   requires s != nil && !held(s.mu)
+//@   modifies held(s.mu)
+//@   ensures "locked" err == nil && held(s.mu)
+//@   ensures "fresh" isType(txn, *transaction) && fresh(txn.(*transaction)) && txnInv(txn.(*transaction)) && txn.(*transaction).store == s &&
+//@                   txn.(*transaction).op == 0 && !txn.(*transaction).released && !cancelled(txn.(*transaction).ctx)
+//@   nopanic
+
+//@ func (t *transaction) release()
+//@   props C18
+//@   requires txnInv(t)
+//@   modifies t.released, held(t.store.mu), cancelled(t.ctx)
+//@   ensures "released-once" t.released && cancelled(t.ctx) && implies(old(t.released), held(t.store.mu) == old(held(t.store.mu)))
+//@   ensures "unlocks" implies(!old(t.released), !held(t.store.mu))
+//@   nopanic
+
+//@ func (t *transaction) prepOp() (op keyvalue.OpID, err error)
+//@   props C18
+//@   requires t != nil && t.ctx != nil && t.op >= 0 && t.op < 1<<62
+//@   modifies t.op
+//@   ensures "id" op == old(t.op) && t.op == old(t.op) + 1
+//@   ensures "aborted" implies(cancelled(t.ctx), err == context.Canceled) && implies(!cancelled(t.ctx), err == nil)
+//@   nopanic
+
+//@ func (t *transaction) Commit(ctx context.Context) (rs []keyvalue.OpResult, err error)
+//@   props C18
+//@   requires txnInv(t)
+//@   modifies t.released, held(t.store.mu), cancelled(t.ctx)
+//@   ensures "results" err == nil && rs == t.results && len(rs) == t.op && forall(i, 0, len(rs), rs[i].Op == i)
+//@   ensures "released" t.released && implies(!old(t.released), !held(t.store.mu)) && implies(old(t.released), held(t.store.mu) == old(held(t.store.mu)))
+//@   nopanic
+
+//@ func (t *transaction) Abort() (err error)
+//@   props C18
+//@   requires txnInv(t)
+//@   modifies t.released, held(t.store.mu), cancelled(t.ctx)
+//@   ensures "released" err == nil && t.released && cancelled(t.ctx) && implies(!old(t.released), !held(t.store.mu)) && implies(old(t.released), held(t.store.mu) == old(held(t.store.mu)))
+//@   nopanic
+
+//@ func (s *store) Get(ctx context.Context, path string) (rec keyvalue.FileRecord, err error)
+//@   props C18 C14
+//@   requires s != nil
+//@   ensures "hit" implies(in(path, dom(s.records)), err == nil && rec == s.records[path] && rec != nil)
+//@   ensures "miss" implies(!in(path, dom(s.records)), rec == nil && err == hackpadfs.ErrNotExist)
+//@   pure
+//@   nopanic
+
+//@ spec srcData(src keyvalue.FileRecord) := ret("keyvalue.(FileRecord).Data", 0, src)
+//@ spec srcDataErr(src keyvalue.FileRecord) := ret("keyvalue.(FileRecord).Data", 1, src)
+//@ spec srcW1(src keyvalue.FileRecord) := worldAfter("keyvalue.(FileRecord).Data", src)
+//@ spec sameExcept(s *store, path string) := forall(k, string, implies(k != path, in(k, dom(s.records)) == old(in(k, dom(s.records))) && s.records[k] == old(s.records[k])))
+//@ spec sameAll(s *store) := forall(k, string, in(k, dom(s.records)) == old(in(k, dom(s.records))) && s.records[k] == old(s.records[k]))
+
+//@ func (s *store) set(path string, src keyvalue.FileRecord, contents blob.Blob) (err error)
+//@   props C18 C14
+//@   requires s != nil
+//@   modifies mapOf(s.records)
+//@   ensures "delete" implies(src == nil, err == nil && !in(path, dom(s.records)) && sameExcept(s, path) && world() == old(world()))
+//@   ensures "data-error" implies(src != nil && old(srcDataErr(src)) != nil, err == old(srcDataErr(src)) && sameAll(s))
+//@   ensures "store" implies(src != nil && old(srcDataErr(src)) == nil, err == nil && in(path, dom(s.records)) && sameExcept(s, path) &&
+//@                     isType(s.records[path], fileRecord) && s.records[path].(fileRecord).store == s && s.records[path].(fileRecord).path == path &&
+//@                     s.records[path].(fileRecord).data == old(srcData(src)) &&
+//@                     s.records[path].(fileRecord).mode == old(retW("keyvalue.(FileRecord).Mode", 0, srcW1(src), src)) &&
+//@                     s.records[path].(fileRecord).modTime == old(retW("keyvalue.(FileRecord).ModTime", 0, srcW1(src), src)))
+//@   nopanic
+
+//@ spec hErr(t *transaction, handler keyvalue.OpHandler, op keyvalue.OpID, rec keyvalue.FileRecord, e error) := ret("keyvalue.(OpHandler).Handle", 0, handler, t, mkstruct(keyvalue.OpResult, op, rec, e))
+//@ spec ctxErr() := context.Canceled
+
+//@ func (t *transaction) GetHandler(path string, handler keyvalue.OpHandler) (id keyvalue.OpID)
+//@   props C18 C14
+//@   requires txnInv(t) && handler != nil && t.op < 1<<40
+//@   modifies t.op, t.results, elems(t.results), cancelled(t.ctx), t.released, held(t.store.mu)
+//@   ensures "one-result" id == old(t.op) && t.op == old(t.op) + 1 && len(t.results) == old(len(t.results)) + 1 && t.results[id].Op == id &&
+//@                        forall(i, 0, old(len(t.results)), t.results[i] == old(t.results[i]))
+//@   ensures "aborted" implies(old(cancelled(t.ctx)), t.results[id].Record == nil && t.results[id].Err == ctxErr() &&
+//@                        t.released == old(t.released) && held(t.store.mu) == old(held(t.store.mu)))
+//@   ensures "hit" implies(!old(cancelled(t.ctx)) && in(path, dom(t.store.records)), t.results[id].Record == t.store.records[path] &&
+//@                        t.results[id].Err == old(hErr(t, handler, t.op, t.store.records[path], nil)))
+//@   ensures "miss" implies(!old(cancelled(t.ctx)) && !in(path, dom(t.store.records)), t.results[id].Record == nil && t.results[id].Err == hackpadfs.ErrNotExist)
+//@   ensures "inv" txnInv(t) && implies(old(cancelled(t.ctx)), cancelled(t.ctx))
+//@   ensures "noop-handler" implies(isType(handler, keyvalue.OpHandlerFunc) && noopfn(payload(handler)),
+//@                        cancelled(t.ctx) == old(cancelled(t.ctx)) && t.released == old(t.released) && held(t.store.mu) == old(held(t.store.mu)) &&
+//@                        implies(!old(cancelled(t.ctx)) && in(path, dom(t.store.records)), t.results[id].Err == nil))
+//@   nopanic
+
+//@ func (t *transaction) Get(path string) (id keyvalue.OpID)
+//@   props C18 C14
+//@   requires txnInv(t) && t.op < 1<<40
+//@   modifies t.op, t.results, elems(t.results)
+//@   ensures "one-result" id == old(t.op) && t.op == old(t.op) + 1 && len(t.results) == old(len(t.results)) + 1 && t.results[id].Op == id &&
+//@                        forall(i, 0, old(len(t.results)), t.results[i] == old(t.results[i]))
+//@   ensures "aborted" implies(cancelled(t.ctx), t.results[id].Record == nil && t.results[id].Err == ctxErr())
+//@   ensures "hit" implies(!cancelled(t.ctx) && in(path, dom(t.store.records)), t.results[id].Record == t.store.records[path] && t.results[id].Err == nil)
+//@   ensures "miss" implies(!cancelled(t.ctx) && !in(path, dom(t.store.records)), t.results[id].Record == nil && t.results[id].Err == hackpadfs.ErrNotExist)
+//@   ensures "inv" txnInv(t)
+//@   nopanic
+
+//@ func (t *transaction) SetHandler(path string, src keyvalue.FileRecord, contents blob.Blob, handler keyvalue.OpHandler) (id keyvalue.OpID)
+//@   props C18 C14
+//@   requires txnInv(t) && handler != nil && t.op < 1<<40
+//@   modifies t.op, t.results, elems(t.results), cancelled(t.ctx), t.released, held(t.store.mu), mapOf(t.store.records)
+//@   ensures "one-result" id == old(t.op) && t.op == old(t.op) + 1 && len(t.results) == old(len(t.results)) + 1 && t.results[id].Op == id &&
+//@                        forall(i, 0, old(len(t.results)), t.results[i] == old(t.results[i]))
+//@   ensures "after-abort-no-effect" implies(old(cancelled(t.ctx)), t.results[id].Err == ctxErr() && sameAll(t.store) && world() == old(world()) &&
+//@                        t.released == old(t.released) && held(t.store.mu) == old(held(t.store.mu)))
+//@   ensures "delete" implies(!old(cancelled(t.ctx)) && src == nil, !in(path, dom(t.store.records)) && sameExcept(t.store, path))
+//@   ensures "data-error" implies(!old(cancelled(t.ctx)) && src != nil && old(srcDataErr(src)) != nil, t.results[id].Err == old(srcDataErr(src)) && sameAll(t.store))
+//@   ensures "store" implies(!old(cancelled(t.ctx)) && src != nil && old(srcDataErr(src)) == nil, in(path, dom(t.store.records)) && sameExcept(t.store, path) &&
+//@                        isType(t.store.records[path], fileRecord) && t.store.records[path].(fileRecord).data == old(srcData(src)) &&
+//@                        t.store.records[path].(fileRecord).mode == old(retW("keyvalue.(FileRecord).Mode", 0, srcW1(src), src)) &&
+//@                        t.store.records[path].(fileRecord).modTime == old(retW("keyvalue.(FileRecord).ModTime", 0, srcW1(src), src)))
+//@   ensures "inv" txnInv(t) && implies(old(cancelled(t.ctx)), cancelled(t.ctx))
+//@   ensures "noop-handler" implies(isType(handler, keyvalue.OpHandlerFunc) && noopfn(payload(handler)),
+//@                        cancelled(t.ctx) == old(cancelled(t.ctx)) && t.released == old(t.released) && held(t.store.mu) == old(held(t.store.mu)) &&
+//@                        implies(!old(cancelled(t.ctx)) && (src == nil || old(srcDataErr(src)) == nil), t.results[id].Err == nil))
+//@   nopanic
+
+//@ func (t *transaction) Set(path string, src keyvalue.FileRecord, contents blob.Blob) (id keyvalue.OpID)
+//@   props C18 C14
+//@   requires txnInv(t) && t.op < 1<<40
+//@   modifies t.op, t.results, elems(t.results), mapOf(t.store.records)
+//@   ensures "one-result" id == old(t.op) && t.op == old(t.op) + 1 && len(t.results) == old(len(t.results)) + 1 && t.results[id].Op == id &&
+//@                        forall(i, 0, old(len(t.results)), t.results[i] == old(t.results[i]))
+//@   ensures "after-abort-no-effect" implies(cancelled(t.ctx), t.results[id].Err == ctxErr() && sameAll(t.store) && world() == old(world()))
+//@   ensures "delete" implies(!cancelled(t.ctx) && src == nil, t.results[id].Err == nil && !in(path, dom(t.store.records)) && sameExcept(t.store, path))
+//@   ensures "data-error" implies(!cancelled(t.ctx) && src != nil && old(srcDataErr(src)) != nil, t.results[id].Err == old(srcDataErr(src)) && sameAll(t.store))
+//@   ensures "store" implies(!cancelled(t.ctx) && src != nil && old(srcDataErr(src)) == nil, t.results[id].Err == nil && in(path, dom(t.store.records)) && sameExcept(t.store, path) &&
+//@                        isType(t.store.records[path], fileRecord) && t.store.records[path].(fileRecord).data == old(srcData(src)))
+//@   ensures "inv" txnInv(t)
+//@   nopanic
